@@ -61,7 +61,7 @@ func emitIdents(p *Prog, in ssa.Instruction) []string {
 }
 
 func checkC04(c *Ctx) {
-	c.Rule("C04-R1", "for every mode that can be set, disengage emits the matching reset before Tty.Stop, guarded only by the same environment switch, non-emptiness of the string, or the cursor state tests")
+	c.Rule("C04-R1", "for every mode that can be set, disengage emits the matching reset before Tty.Stop, guarded only by the same environment switch or the availability of the very string emitted (not by what the application currently requests)")
 	c.Rule("C04-R2", "Tty contract order: Drain, NotifyResize(nil), wg.Wait dominate Stop; no write after Stop; Close only in finalize after disengage; finalize only from finish; finish only via sync.Once")
 	c.Rule("C04-R3", "engage re-applies mouse/paste/focus/title from the persistent fields; every toggler stores the persistent field and emits consistently, under the lock")
 	c.Rule("C04-R5", "mode strings come in pairs: the built-in fallback of the string that switches a mode off is assigned under the same conditions as the fallback of the string that switches it on; in engage the title is saved before it is set")
@@ -135,8 +135,8 @@ func checkC04(c *Ctx) {
 		{"mouse", []string{"call:enableMouse(t.mouseFlags)", "call:enableMouse(f)"}, "call:enableMouse(0)", nil},
 		{"paste", []string{"call:enablePasting(t.pasteEnabled)", "call:enablePasting(true)"}, "call:enablePasting(false)", nil},
 		{"focus", []string{"call:enableFocusReporting"}, "call:disableFocusReporting", nil},
-		{"cursor-shape", []string{"map:cursorStyles[t.cursorStyle]"}, "map:cursorStyles[" + defKey + "]", []string{"t.cursorStyles != nil", "t.cursorStyle != "}},
-		{"cursor-colour", []string{"prepared:cursorRGB"}, "prepared:cursorFg", []string{"t.cursorFg != \"\"", ".Color).Valid("}},
+		{"cursor-shape", []string{"map:cursorStyles[t.cursorStyle]"}, "map:cursorStyles[" + defKey + "]", []string{"t.cursorStyles != nil"}}, // not the application's current request: it says nothing about what an earlier Show sent
+		{"cursor-colour", []string{"prepared:cursorRGB"}, "prepared:cursorFg", []string{"t.cursorFg != \"\""}},
 		{"colours", []string{"field:SetFg", "field:SetBg", "field:SetFgBg", "field:SetFgRGB", "field:SetBgRGB", "field:SetFgBgRGB"}, "field:ResetFgBg", nil},
 		{"attributes", []string{"field:Bold", "field:Underline", "field:Reverse", "field:Blink", "field:Dim", "field:Italic", "field:StrikeThrough"}, "field:AttrOff", nil},
 	}
